@@ -136,7 +136,7 @@ TOK_RULES = [
  ("Tokenizer::add_lattice_edges", r"index::index\(chars", "start_word < len_char (loop guard and the `start_word == len_char => break` test in build_lattice_inner)", LATTICE),
  ("Tokenizer::add_lattice_edges", r"Add\(arg5,next", "start_word + match length <= len_char: the trie is searched over the remaining text only", None),
  ("Tokenizer::add_lattice_edges", r"panicking::panic", "debug_assert!(start_word + m.end_char <= len_char): as above", None),
- ("Tokenizer::build_lattice_inner", r"Add\(var:usize,(1|var:usize)\)", "positions bounded by the sentence length", None),
+ ("Tokenizer::build_lattice_inner", r"Add\(var:usize,", "the position advances by 1 or by a run length of the current sentence (Sentence::groupable): positions are bounded by the sentence length", None),
  ("Lattice::reset", r"Add\(arg2,1\)", "sentence length + 1", None),
  ("Lattice::insert_bos", r"index_mut\(arg1\.ends,0\)", "reset() grew ends to len_char + 1 >= 1 elements just before", None),
  ("Lattice::insert_node", r"panicking::panic", "debug assertions start_node <= start_word < end_word: callers pass positions in that order", None),
